@@ -68,7 +68,9 @@ func harnessOverlay(withTest bool) (map[string][]byte, map[string]string, error)
 		if m == nil {
 			return fmt.Errorf("%s: no package clause", p)
 		}
-		dirs[rel] = string(m[1])
+		if !strings.Contains(rel, "zzsched") && !strings.Contains(rel, "zzsync") {
+			dirs[rel] = string(m[1]) // harness runtime and replay test are generated for harness packages, not for the shims
+		}
 		v := filepath.Join(repoDir, rel, filepath.Base(p))
 		ov[v] = b
 		real[v] = p
